@@ -98,13 +98,14 @@ def initial_mesh(src):
         Image.fromarray(full).convert("RGB").save(path)
         try:
             sk = fsk.Skeleton(path)
-            return sk.create_lattice()
+            # optional 4th element "reduce": the parser's reduce_amount option (collinear interior pixels dropped while parsing)
+            return sk.create_lattice(reduce_amount=True) if len(src) > 3 and src[3] == "reduce" else sk.create_lattice()
         finally:
             os.remove(path)
     if kind == "skeleton":
         import forsys.skeleton as fsk
         sk = fsk.Skeleton(src[1])
-        return sk.create_lattice()
+        return sk.create_lattice(reduce_amount=True) if len(src) > 2 and src[2] == "reduce" else sk.create_lattice()
     raise ValueError(src)
 
 
@@ -233,7 +234,8 @@ def build(tier, seed):
     inner = max(at["C"], key=lambda c: len(adj[c]))
     hole = [c for c in sorted(at["C"], key=int) if c != inner]
     few = [["direct", "v5x4", None, 0], ["direct", "v5x4", None, 2], ["se", "v5x4", None, 2], ["wkt", "v5x4", None, 1],
-           ["tess", 5, 4, seed + 1, 40.0], ["direct", "v5x5", hole, 0], ["raster", [5, 4, 15, 0, 40], True], ["raster", [5, 4, 15, 0, 40], False], ["direct", "lens", None, 3]]
+           ["tess", 5, 4, seed + 1, 40.0], ["direct", "v5x5", hole, 0], ["raster", [5, 4, 15, 0, 40], True], ["raster", [5, 4, 15, 0, 40], False], ["direct", "lens", None, 3],
+           ["raster", [5, 4, 15, 0, 40], True, "reduce"], ["raster", [4, 4, 0, 0, 30], True, "reduce"]]
     light = [["gm", 2, True], ["gm", 6, True], ["gm", 3, False], ["frame"], ["hold"], ["release"]]
     if tier == "quick":
         return [MeshHistories("parsers-depth3", few, 3),
@@ -241,7 +243,8 @@ def build(tier, seed):
     subs2 = T.connected_subsets(bases.get("v5x5"), min_size=1)
     more = few + [["se", "v5x5", None, 0], ["wkt", "v5x5", hole, 2], ["tess", 6, 6, seed + 2, 1000.0]]
     files = [["se_file", REPO + "/tests/data/furrow_gauss_velocity/stage0.dmp"], ["se_file", REPO + "/tests/data/12_12/step_20.dmp"],
-             ["skeleton", REPO + "/tests/data/test_nonzero.tif"]]
+             ["skeleton", REPO + "/tests/data/test_nonzero.tif"], ["skeleton", REPO + "/tests/data/experimental/exp_1.tif", "reduce"],
+             ["skeleton", REPO + "/examples/data/in_vivo/t_1.tif"]]
     return [MeshHistories("parsers-depth4", more, 4),
             MeshHistories("subtissues-depth2", [["direct", "v5x5", S, k] for S in subs2 for k in (0, 2)], 2, light),
             MeshHistories("shipped-depth2", files, 2, light)]
